@@ -55,6 +55,44 @@ def fr3d_listing(rng):
     return "\n".join(lines) + "\n"
 
 
+def conformers(path, rng, outdir, tag):
+    """two files with the same residue identifiers and different geometry: the structure rewritten as it is, and a copy in
+    which C1' of a third of the nucleotides is turned by 180 degrees about the line from the glycosidic nitrogen through
+    the base centroid (no hydrogen-bonding atom moves; the cis/trans orientation of the pairs of those nucleotides
+    changes).  What is computed for one of them must not depend on the other having been read in the same process."""
+    import dataclasses
+    import numpy as np
+    from gen import g3
+    from rnapolis.tertiary import BASE_ATOMS
+    st = g3.load(path)
+    first = st.residues[0].model if st.residues else 1
+    st = g3.mk_structure([r for r in st.residues if r.model == first])
+    chosen = {i for i in range(len(st.residues)) if rng.random() < 0.34}
+
+    def turn(ri, ai, a):
+        r = st.residues[ri]
+        if ri not in chosen or a.name != "C1'":
+            return a
+        n = r.find_atom("N9") or r.find_atom("N1")
+        base = [b for b in r.atoms if b.name in BASE_ATOMS.get(r.one_letter_name, [])]
+        if n is None or len(base) < 3:
+            return a
+        o = np.array([n.x, n.y, n.z])
+        u = np.mean([[b.x, b.y, b.z] for b in base], axis=0) - o
+        if np.linalg.norm(u) < 1e-6:
+            return a
+        u = u / np.linalg.norm(u)
+        v = np.array([a.x, a.y, a.z]) - o
+        w = 2 * np.dot(v, u) * u - v
+        q = o + w
+        return dataclasses.replace(a, x=float(q[0]), y=float(q[1]), z=float(q[2]))
+    a = os.path.join(outdir, "%s-as-read.cif" % tag)
+    b = os.path.join(outdir, "%s-other-conformer.cif" % tag)
+    g3.write_cif(st, a)
+    g3.write_cif(g3.map_atoms(st, turn), b)
+    return [a, b]
+
+
 def inventory_check(res):
     out = subprocess.run([sys.executable, os.path.join(VERIF, "tools", "site_inventory.py")], stdout=subprocess.PIPE, check=True).stdout
     sites = json.loads(out)
@@ -74,7 +112,8 @@ def run(ctx):
     res = Result("C14")
     res.rule = ("jobs = corpus 3D files (annotation lists, JSON, CSV, BPSEQ, dot-bracket, extended dot-bracket, all dot-brackets in order, "
                 "elements, write_pdb/write_cif text) + generated knotted BPSEQs (text, optimal/FCFS/all dot-brackets in order, elements, "
-                "removals); each job evaluated under every sampled PYTHONHASHSEED in a fresh interpreter and twice in-process; "
+                "removals); each job evaluated under every sampled PYTHONHASHSEED in a fresh interpreter and twice in-process, and "
+                "once more with the whole job list in the opposite order; "
                 "non-trivial = job with >1 member in all_dot_brackets or a 3D file; distinct by job")
     sites, new_sites = inventory_check(res)
     rng = ctx.rng
@@ -87,6 +126,13 @@ def run(ctx):
             jobs.append({"kind": "file", "path": p, "find_gaps": False, "all": True})
             if not ctx.quick:
                 jobs.append({"kind": "file", "path": p, "find_gaps": True, "all": True})
+    # the same molecule twice (same identifiers, other conformation), each in its own file
+    import tempfile
+    cdir = tempfile.mkdtemp(prefix="c14-conformers-")
+    for f in (["1A1T_1_B.cif", "1DFU_1_M-N.cif"] if ctx.quick else ["1A1T_1_B.cif", "1DFU_1_M-N.cif", "4WTI_1_T-P.cif", "1E7K_1_C.cif", "1ehz-assembly-1.cif"]):
+        if os.path.exists(os.path.join(tdir, f)):
+            for p in conformers(os.path.join(tdir, f), rng, cdir, f.split(".")[0]):
+                jobs.append({"kind": "file", "path": p, "find_gaps": False, "all": True})
     # adapter path: corpus structure + FR3D listings in which one nucleotide has several competing canonical pairs
     for _ in range(ctx.pick(6, 40)):
         jobs.append({"kind": "external", "path": os.path.join(tdir, "184D.cif"), "listing": fr3d_listing(rng), "find_gaps": False})
@@ -100,13 +146,14 @@ def run(ctx):
     for seq, pairs in structs:
         jobs.append({"kind": "bpseq", "seq": seq, "pairs": pairs, "all": True})
     seeds = ["0", "1", "2", "3", "random"] if ctx.quick else [str(i) for i in range(10)] + ["random", "random"]
-    procs = [(s, run_worker(jobs, s)) for s in seeds]
-    payload = json.dumps(jobs).encode()
-    for _, p in procs:
-        p.stdin.write(payload)
+    # the last worker gets the jobs in the opposite order under the first seed: what is computed for an input must not
+    # depend on which other inputs the process handled before it
+    procs = [(s, run_worker(jobs, s), False) for s in seeds] + [(seeds[0], run_worker(jobs, seeds[0]), True)]
+    for _, p, rev in procs:
+        p.stdin.write(json.dumps(jobs[::-1] if rev else jobs).encode())
         p.stdin.close()
     results = {}
-    for i, (s, p) in enumerate(procs):
+    for i, (s, p, rev) in enumerate(procs):
         out = p.stdout.read()
         p.wait()
         p.errfile.seek(0)
@@ -114,7 +161,8 @@ def run(ctx):
         p.errfile.close()
         if p.returncode != 0:
             raise RuntimeError("det_worker failed under seed %s: %s" % (s, err.decode()[-500:]))
-        results[(i, s)] = json.loads(out)
+        got = json.loads(out)
+        results[(i, s + ", inputs in the opposite order" if rev else s)] = got[::-1] if rev else got
     ref_key = next(iter(results))
     for ji, job in enumerate(jobs):
         ref = results[ref_key][ji]["first"]
